@@ -146,9 +146,27 @@ def crossings_at(cl, x2):
     return ys, vert, tangent, steep, inner
 
 
+def steps_object(case):
+    """the `steps` argument as the caller passes it: None, an int, or the abscissae in the container
+    named by case["steps_type"] (list / tuple / range / ndarray; Python ints stay ints)"""
+    st = case["steps"]
+    if st is None or isinstance(st, int):
+        return st
+    ty = case.get("steps_type", "list")
+    if ty == "tuple":
+        return tuple(st)
+    if ty == "ndarray":
+        return np.array(st)          # dtype int64 when every abscissa is an int
+    if ty == "range" and len(st) >= 2 and all(isinstance(v, int) for v in st) and st[1] != st[0] \
+            and all(b - a == st[1] - st[0] for a, b in zip(st, st[1:])):
+        d = st[1] - st[0]
+        return range(st[0], st[-1] + (1 if d > 0 else -1), d)
+    return list(st)
+
+
 def run_dc(vu, case):
     c = _Contour(case["coords"])
-    steps = case["steps"]
+    steps = steps_object(case)
     try:
         res = vu.calculate_design_conditions(c, steps=steps, swap_axis=case["swap"])
     except AssertionError:
@@ -254,10 +272,17 @@ def oracle_dc(vu, case, res=None):
             "row %d of the result has abscissa %r which is not the next requested abscissa (%d requested, %d returned)" % (
                 k, rows[k][0], len(absc), len(rows)), info
     # swap_axis == exchanging the columns (same float operations: compared exactly)
-    sw = {"coords": [[y, x] for x, y in case["coords"]], "steps": case["steps"], "swap": not case["swap"]}
+    sw = {"coords": [[y, x] for x, y in case["coords"]], "steps": case["steps"], "swap": not case["swap"],
+          "steps_type": case.get("steps_type", "list")}
     r2 = run_dc(vu, sw)
     if r2 != res:
         return dict(base, clause="swap-axis"), "swap_axis=%r differs from exchanging the coordinate columns" % case["swap"], info
+    st = case["steps"]
+    if isinstance(st, list) and (case.get("steps_type", "list") != "list" or any(isinstance(v, int) for v in st)):
+        r3 = run_dc(vu, dict(case, steps=[float(v) for v in st], steps_type="list"))
+        if r3 != res:
+            return dict(base, clause="steps-type"), "abscissae given as %s of %s give other numbers than the same abscissae as a list of floats" % (
+                case.get("steps_type", "list"), "ints" if all(isinstance(v, int) for v in st) else "ints and floats"), info
     return None, None, info
 
 
@@ -363,7 +388,29 @@ def gen_steps(rng, coords, swap, vertex_stream):
     if r < 0.45:
         return rng.choice([1, 2, 3, 5, 7, 10, 20, 25])
     n = rng.randrange(1, 9)
-    mode = rng.choice(["inside", "inside", "mixed", "outside", "dup"])
+    mode = rng.choice(["inside", "inside", "mixed", "outside", "dup", "edge-band", "edge-band", "integers", "integers"])
+    if mode == "edge-band":
+        # inside the contour's extent but within 1e-4 of it from either end (outside the DEFAULT abscissae range)
+        out = []
+        for _ in range(rng.randrange(1, 4)):
+            f = rng.choice([1e-5, 2e-5, 5e-5, 8e-5, 3e-5])
+            out.append(lo + f * w if rng.random() < 0.5 else hi - f * w)
+        out += [rng.uniform(lo + 1e-3 * w, hi - 1e-3 * w) for _ in range(rng.randrange(0, 3))]
+        rng.shuffle(out)
+        return out
+    if mode == "integers":
+        a, b = math.floor(lo) - 1, math.ceil(hi) + 1
+        if rng.random() < 0.4 and b - a >= 3:
+            d = rng.choice([1, 1, 2, 3])
+            out = list(range(a + rng.randrange(0, 2), b + 1, d))[:12]
+        else:
+            out = [rng.randrange(a, b + 1) for _ in range(n)]
+        r2 = rng.random()
+        if r2 < 0.2:      # whole numbers as floats
+            out = [float(v) for v in out]
+        elif r2 < 0.4:    # ints and floats mixed
+            out = [v if rng.random() < 0.5 else rng.choice([float(v), v + 0.5]) for v in out]
+        return out
     if mode == "inside":
         out = [rng.uniform(lo + 1e-3 * w, hi - 1e-3 * w) for _ in range(n)]
     elif mode == "mixed":
@@ -480,12 +527,17 @@ def gen_dc_case(ctx, rng, k, n_real):
             kind, coords = "star-rounded", star_polygon(rng, n=rng.choice([4, 5, 6, 8, 10]), decimals=rng.choice([0, 1]))
             vertex_stream = rng.random() < 0.7
     if forced is not None:
-        return {"kind": kind, "coords": coords, "swap": forced[0], "steps": forced[1], "vertex_stream": vertex_stream}
+        return {"kind": kind, "coords": coords, "swap": forced[0], "steps": forced[1], "vertex_stream": vertex_stream,
+                "steps_type": "list"}
     swap = rng.random() < 0.4
     if kind in ("IFORM", "ISORM", "DirectSampling") and rng.random() < 0.15:
         vertex_stream = True
-    return {"kind": kind, "coords": coords, "swap": swap, "steps": gen_steps(rng, coords, swap, vertex_stream),
-            "vertex_stream": vertex_stream}
+    if kind in ("star", "convex") and rng.random() < 0.5:
+        # wide polygons, so that whole-number abscissae fall inside the extent
+        coords = [[x * 40.0, y * 40.0] for x, y in coords] if max(abs(v) for p in coords for v in p) < 2 else coords
+    steps = gen_steps(rng, coords, swap, vertex_stream)
+    return {"kind": kind, "coords": coords, "swap": swap, "steps": steps, "vertex_stream": vertex_stream,
+            "steps_type": rng.choice(["list", "list", "tuple", "ndarray", "range"]) if isinstance(steps, list) else "list"}
 
 
 def grid_walk(rng, n):
@@ -616,7 +668,7 @@ def shrink_dc(vu, case, sig):
         c = dict(c, steps=st)
     co = vlib.shrink_list(c["coords"], lambda ps: len(ps) >= 3 and fails(dict(c, coords=list(ps))), min_len=3)
     c = dict(c, coords=co)
-    for dec in (0, 1, 2, 3):
+    for dec in (0, 1, 2, 3, 5):
         c2 = dict(c, coords=[[round(x, dec), round(y, dec)] for x, y in c["coords"]],
                   steps=[round(v, dec + 1) for v in c["steps"]] if isinstance(c["steps"], list) else c["steps"])
         if fails(c2):
@@ -676,6 +728,14 @@ def run(ctx):
         # abscissa exactly on an interior vertical edge (singular candidate pair) while another edge is crossed inside
         {"kind": "corpus", "coords": [[0, 0], [4, 0], [4, 2], [2, 2], [2, 4], [0, 4]], "swap": False, "steps": [2.0, 1.0], "vertex_stream": True},
         {"kind": "corpus", "coords": [[0, 0], [4, 0], [4, 2], [2, 2], [2, 4], [0, 4]], "swap": True, "steps": [2.0, 3.0], "vertex_stream": True},
+    ]
+    dc_cases += [
+        # explicit abscissae in the outermost 0.01 % of the extent; whole-number abscissae in int containers
+        {"kind": "corpus", "coords": [[0, 0], [10, 1], [7, 6], [2, 5]], "swap": False, "steps": [0.0002, 9.9998, 0.0005, 5.0], "vertex_stream": False, "steps_type": "list"},
+        {"kind": "corpus", "coords": [[0, 0], [10, 1], [7, 6], [2, 5]], "swap": True, "steps": [0.0001, 5.9999], "vertex_stream": False, "steps_type": "tuple"},
+        {"kind": "corpus", "coords": [[0.3, 0.2], [9.6, 1.1], [7.2, 6.4], [2.1, 5.3]], "swap": False, "steps": [2, 4, 6], "vertex_stream": False, "steps_type": "list"},
+        {"kind": "corpus", "coords": [[0.3, 0.2], [9.6, 1.1], [7.2, 6.4], [2.1, 5.3]], "swap": False, "steps": [1, 3, 5, 7], "vertex_stream": False, "steps_type": "range"},
+        {"kind": "corpus", "coords": [[0.3, 0.2], [9.6, 1.1], [7.2, 6.4], [2.1, 5.3]], "swap": True, "steps": [1, 2, 5], "vertex_stream": False, "steps_type": "ndarray"},
     ]
     ix_cases += [
         {"kind": "corpus", "c1": [[0.0, 0.0], [2.0, 2.0], [4.0, 0.0]], "c2": [[0.5, 0.0], [2.5, 2.0], [2.5, -1.0]]},
@@ -776,9 +836,10 @@ def run(ctx):
         if s2 is None:
             small, s2, msg2 = dc_cases[i], s, msg
         found[_sigkey(s)] = True
-        rep = {"function": "calculate_design_conditions", "coords": small["coords"], "steps": small["steps"], "swap": small["swap"]}
+        rep = {"function": "calculate_design_conditions", "coords": small["coords"], "steps": small["steps"], "swap": small["swap"],
+               "steps_type": small.get("steps_type", "list")}
         ctx.violation(s2, "calculate_design_conditions(coords=%r, steps=%r, swap_axis=%r): %s" % (
-            small["coords"] if len(small["coords"]) <= 8 else "<%d points>" % len(small["coords"]), small["steps"], small["swap"], msg2), rep)
+            small["coords"] if len(small["coords"]) <= 8 else "<%d points>" % len(small["coords"]), steps_object(small), small["swap"], msg2), rep)
     order_ix = suspects_ix + [i for i in range(len(ix_cases)) if i not in set(suspects_ix)]
     for i in order_ix:
         s, msg, _ = ix_or[i]
